@@ -71,7 +71,12 @@ def create_task(coro: Callable[[], Awaitable[Any]], loop: Optional[asyncio.Abstr
 
     async def run_task() -> None:
         with kiwipy.capture_exceptions(future):
-            res = await coro()
+            try:
+                res = await coro()
+            except asyncio.CancelledError:
+                # a cancelled computation is not an Exception: report it as the cancellation it is
+                future.cancel()
+                raise
             future.set_result(res)
 
     asyncio.run_coroutine_threadsafe(run_task(), loop)
